@@ -52,6 +52,24 @@ REGISTRY: dict[str, dict[str, str]] = {
         "note": "Trusted: argparse semantics (dest derivation, clustering, parse_known_args), tomllib.",
         "design_ref": "DESIGN.md §3 R-CONFIG, §4 C16",
     },
+    "C17": {
+        "technique": "static analysis: per-iteration must-pass-through (intersection of branch edges over acyclic CFG paths), "
+                     "filter classification through helper summaries, identity origins",
+        "level": "Decides the filter matrix of the statement for each of the three discovery paths at every yield/append site, "
+                 "the no-symlink guarantee of traversal, in-place pruning, seen-set + final sort on all paths, and the size-limit "
+                 "conventions. Completeness on a concrete tree and pathspec's pattern semantics are not decided.",
+        "note": "Trusted: os.walk / pathlib semantics, pathspec.",
+        "design_ref": "DESIGN.md §3 R-RESOLVE, §4 C17",
+    },
+    "C18": {
+        "technique": "static analysis: provenance (slicing) of the matcher argument and of the spec, shape of the combination rule",
+        "level": "Decides four necessary conditions of agreement with git at the two gitignore matcher sites: dependence on "
+                 "respect_gitignore, matcher argument relative to the .gitignore's directory, no plain disjunction across levels, "
+                 "gitignore factory. G2/G3 fail today at both sites (recorded findings F-16). Agreement with git on concrete "
+                 "trees is a runtime differential and not decided.",
+        "note": "Trusted: pathspec implements gitignore syntax.",
+        "design_ref": "DESIGN.md §3 R-RESOLVE G1-G4, §4 C18",
+    },
 }
 
 NOT_APPLICABLE: dict[str, str] = {
